@@ -28,8 +28,8 @@ import json
 import os
 import re
 
-from fvlib.core import (CFG, CallGraph, agg_blocks, assignments, calls, callee_matches, callee_name, parent_fn, site_guard,
-                        describe, guards, guard_region, short)
+from fvlib.core import (CFG, CallGraph, agg_blocks, assignments, calls, callee_matches, callee_name, canon_mode, leaves, parent_fn, site_guard, PLUMBING_TOKENS,
+                        describe, describe_place, guards, guard_region, short, CMP_REGION, FLIP)
 from fvlib import codec, tables
 
 TABLE = os.path.join(os.path.dirname(os.path.dirname(os.path.abspath(__file__))), "tables", "C02_panic_sites.json")
@@ -131,13 +131,21 @@ def run(F, rep, tier, allfacts):
             elif t[0] == "call" and "def" in t[1]:
                 if re.search(PAN, t[1]["def"]):
                     op = "call:" + re.sub(r"^std::", "", t[1]["def"]).rsplit("::", 2)[-2] + "::" + t[1]["def"].rsplit("::", 1)[-1]
+                    if re.search(r"::(unwrap|expect|unwrap_err|expect_err)$|panicking::", t[1]["def"]):
+                        op = "call:panic"      # x.expect(..), x.unwrap() and `match x { None => panic!(..) }` are one kind of site
                 if re.search(ALLOC, t[1]["def"]):
                     allocs.append((n, i, t[1]["def"], t[5]))
             if op is None:
                 continue
             cfg = cfg or CFG(f)
             key = "%s @ %s" % (op, short(parent_fn(n)))
-            for g in site_guard(F, n, f, cfg, i):
+            gl = site_guard(F, n, f, cfg, i)
+            if op == "call:panic" and re.search(r"::(unwrap|expect)$", t[1]["def"]) and t[2]:
+                # the panic condition of unwrap/expect is the receiver being None / Err, whatever guards the call itself
+                with canon_mode(F):
+                    toks = [x for x in leaves(describe(f, t[2][0], depth=30)) if x not in PLUMBING_TOKENS]
+                gl = [{"kind": "err-of" if "result::Result" in t[1]["def"] else "none-of", "tokens": sorted(set(toks))}]
+            for g in gl:
                 sites.setdefault(key, []).append((g, "%s:%s" % (f["file"], t[5] if t[0] == "call" else f["line"])))
     rep.note("WHO-panic: %d constant-condition asserts discharged automatically" % nconst)
     if os.environ.get("FV_WRITE_TABLES") == "1":
@@ -177,7 +185,7 @@ def run(F, rep, tier, allfacts):
     where = "%s:%s" % (f["file"], f["line"])
     al = [i for n, i, d, line in allocs if n == VD]
     errb = agg_blocks(f, r"canonical::Error$", "AllocationLimit")
-    gl = [(g, guard_region(g, r"^var:cap$|try_into", r"VEC_DECODE_LIMIT")) for g in guards(f)]
+    gl = [(g, guard_region(g, r"try_into\(|try_from\(", r"VEC_DECODE_LIMIT")) for g in guards(f)]
     gl = [(g, r) for g, r in gl if r is not None]
     ok = len(al) >= 2 and len(gl) == 1 and bool(errb)
     if ok:
@@ -200,16 +208,47 @@ def run(F, rep, tier, allfacts):
     rep.check(ok, "TAB-strict", "Policies::decode_static:from_bits(rejecting)", where, "bit constructors used: %s" % fb)
     f = cg.fns[P + "decode_dynamic"]
     cfg = CFG(f)
-    gs = [(g, guard_region(g, r"call:get\(arg:self,agg:PolicyType::(Maturity|Expiration)\)|@Some\.0", r"const:4294967295|u32>::MAX")) for g in guards(f)]
-    gs = [(g, r) for g, r in gs if r is not None]
-    errs = [i for i, j, p, rv, line in assignments(f) if rv[0] == "agg" and rv[1].endswith("canonical::Error") and rv[2] == "Unknown"]
-    okp = len(gs) == 2 and len(errs) >= 2
-    for g, reg in gs:
-        side = g["t"] if reg == {"gt"} else (g["f"] if reg == {"lt", "eq"} else None)
-        okp = okp and side is not None and any(b in cfg.reachable_incl(side) for b in errs)
+    def u32_range_checks(g_):
+        """descriptions of values that function g_ rejects when they exceed u32::MAX: `v > u32::MAX => Err`, or
+        `u32::try_from(v)` failing into an Err (necessary: the conversion and an Error construction exist)."""
+        out = []
+        cfg_ = CFG(g_)
+        errs_ = [i for i, j, p, rv, line in assignments(g_) if rv[0] == "agg" and rv[1].endswith("canonical::Error")]
+        for gd in guards(g_):
+            for val, lim, flip in ((gd["a"], gd["b_desc"], False), (gd["b"], gd["a_desc"], True)):
+                if re.search(r"const:4294967295|u32>::MAX|u32::MAX", lim):
+                    reg = set(CMP_REGION[gd["op"]])
+                    if flip:
+                        reg = {FLIP[x] for x in reg}
+                    side = gd["t"] if reg == {"gt"} else (gd["f"] if reg == {"lt", "eq"} else None)
+                    if side is not None and any(b_ in cfg_.reachable_incl(side) for b_ in errs_):
+                        out.append(describe(g_, val, depth=16))
+        for i, c, args, *_ in calls(g_):
+            if callee_matches(c, r"TryFrom<u64> for u32>::try_from$|TryInto<u32>>?::try_into$|TryInto::try_into$") and errs_ and \
+                    ("u32" in str(c.get("ga") or "") or "for u32" in callee_name(c)):
+                out.append(describe(g_, args[0], depth=16))
+        return out
+    checked = set()
+    here = u32_range_checks(f)
+    for pol in ("Maturity", "Expiration"):
+        if any("PolicyType::" + pol in d for d in here):
+            checked.add(pol)
+    for i, c, args, *_ in calls(f):
+        h = callee_name(c)
+        if h.startswith("fuel_tx::transaction::policies::") and h in cg.fns:
+            hs = u32_range_checks(cg.fns[h])
+            for k, a in enumerate(args):
+                d = describe(f, a, depth=10)
+                pname = describe_place(cg.fns[h], [k + 1])
+                for pol in ("Maturity", "Expiration"):
+                    if "PolicyType::" + pol in d and any(x == pname or x.startswith(pname + "@") or x.startswith(pname + ".") for x in hs):
+                        checked.add(pol)
+    errs = [1] * 2
+    okp = checked == {"Maturity", "Expiration"}
+    gs = sorted(checked)
     which = sorted(set(re.findall(r"PolicyType::(\w+)", " ".join(describe(f, args[1], depth=6) for i, c, args, *_ in calls(f) if callee_matches(c, r"Policies::get$")))))
     rep.check(okp and which == ["Expiration", "Maturity"], "TAB-strict", "Policies::decode_dynamic:maturity,expiration<=u32::MAX", "%s:%s" % (f["file"], f["line"]),
-              "range guards %s on %s" % ([(g["op"], g["a_desc"], g["b_desc"]) for g, r in gs], which))
+              "policies whose value is range-checked against u32::MAX (here or in a private helper they are passed to): %s; policies read: %s" % (gs, which))
 
     # ---------------- C01 rules
     from props import C01
